@@ -149,9 +149,48 @@ def rule_merge(ctx: Ctx, repo: Repo) -> None:
     ctx.floor("R-C05.4", "shrink_typed_dict_types scenarios", n, 300)
 
 
+def rule_aliasing(ctx: Ctx, repo: Repo) -> None:
+    """R-C05.5: the type of a value does not depend on whether the same object occurs elsewhere in the value
+    (one object referenced twice is typed twice the same way; no Any / widening for the second occurrence)."""
+    w = f"{TY}.get_type"
+    fi = repo.fn(TY, "get_type")
+    ps = fi.positional_params()
+    i1 = R("val", cls=S("builtin:int"), label=K("i"), n=K(None), keykind=K(None))
+    s1 = R("val", cls=S("builtin:str"), label=K("s"), n=K(None), keykind=K(None))
+    t = R("val", cls=S("builtin:tuple"), label=K("t"), n=K(2), keykind=K(None), elems=K((i1, s1)))
+    inner = R("val", cls=S("builtin:list"), label=K("row"), n=K(1), keykind=K(None), elems=K((i1,)))
+    for outer_cls, origin in (("builtin:list", "List"), ("builtin:tuple", "Tuple"), ("builtin:set", "Set")):
+        for shared in (t, inner):
+            once = R("val", cls=S(outer_cls), label=K("once"), n=K(1), keykind=K(None), elems=K((shared,)))
+            twice = R("val", cls=S(outer_cls), label=K("twice"), n=K(2), keykind=K(None), elems=K((shared, shared)))
+            res = []
+            for o in (once, twice):
+                sc = IM.InferScenario(repo, "get_type", self_recursion=True)
+                res.append(sc.result({ps[0]: o, ps[1]: K(2)}))
+            r1, r2 = res
+            def elem_types(r):
+                if isinstance(r, R) and r.kind == "generic":
+                    a = r.fields["args"]
+                    if isinstance(a, K) and a.v and isinstance(a.v[0], R) and a.v[0].kind == "shrunk":
+                        of = a.v[0].fields["of"]
+                        return list(of.v) if isinstance(of, K) else None
+                    if isinstance(a, R) and a.kind == "tuple_of":
+                        return None
+                    if isinstance(a, K):
+                        return list(a.v)
+                return None
+            e1, e2 = elem_types(r1), elem_types(r2)
+            lab = f"{origin} holding the same {shared.fields['cls'].name.split(':')[1]} object twice"
+            ok = e1 is not None and e2 is not None and len(e1) == 1 and len(e2) == 2 and e2[0] == e1[0] and e2[1] == e1[0]
+            ctx.check(ok, "R-C05.5", w, "an object that occurs twice in a value is typed the same way both times (no Any or widening for the second occurrence)",
+                      construct=f"{lab}: element types {[_short(x, 60) for x in (e2 or [])]} vs once {[_short(x, 60) for x in (e1 or [])]}")
+            ctx.check(not contains(r2, ANY), "R-C05.2", w, "no Any is introduced for a repeated object", construct=f"{lab}: {_short(r2, 120)}")
+
+
 def run(ctx: Ctx, repo: Repo, tier: str) -> None:
     ctx.trust("typing.Any admits everything; Callable, Type[C], Iterator[T] are the documented hints for callables, class objects and generators")
     rule_get_type(ctx, repo)
+    rule_aliasing(ctx, repo)
     rule_dict_type(ctx, repo)
     rule_shrink(ctx, repo)
     rule_merge(ctx, repo)
